@@ -129,6 +129,9 @@ class Walk:
                 o = stable_op(obj, k)
                 if o is not None:
                     self.visit(o, id(obj), "operation")
+            md = getattr(obj, "metadata", None)
+            if md:
+                self.visit(md, id(obj), "metadata")
             return
         if isinstance(obj, QPDBasis):
             if not self._add(obj, "basis", parent):
@@ -246,11 +249,26 @@ def snap_op(op, uu):
     d = [type(op).__name__, op.name, op.num_qubits, [_pkey(p) for p in op.params], lbl]
     if isinstance(op, BaseQPDGate):
         d.append(["qpd", op.basis_id, getattr(op, "_qubit_id", None), snap_basis(op.basis, uu)])
+        # the cached definition of a placeholder (None until `.definition` has been read)
+        dfn = getattr(op, "_definition", None)
+        d.append(["def", snap(dfn, uu) if isinstance(dfn, QuantumCircuit) else None])
     return d
 
 
 def snap_basis(b, uu):
-    return [[[[snap_op(o, uu) for o in lst] for lst in m] for m in b.maps], [_pkey(c) for c in b.coeffs]]
+    return [[[[snap_op(o, uu) for o in lst] for lst in m] for m in b.maps], [_pkey(c) for c in b.coeffs],
+            [_pkey(c) for c in np.asarray(b.probabilities).ravel()], _pkey(b.kappa)]
+
+
+NAMES = [False]     # snapshots of ARGUMENTS also record circuit names (results get fresh automatic names on every call)
+
+
+def snap_args(x):
+    NAMES[0] = True
+    try:
+        return snap(x)
+    finally:
+        NAMES[0] = False
 
 
 def snap(x, uu=None):
@@ -259,7 +277,8 @@ def snap(x, uu=None):
         # quantum register NAMES are not compared: QuantumRegister(bits=...) draws them from a process-wide counter
         return ["qc", x.num_qubits, x.num_clbits, [r.size for r in x.qregs], [[r.name, r.size] for r in x.cregs],
                 [[snap_op(i.operation, uu), [x.find_bit(q).index for q in i.qubits], [x.find_bit(c).index for c in i.clbits]]
-                 for i in x.data]]
+                 for i in x.data],
+                _pkey(x.global_phase), repr(sorted((x.metadata or {}).items(), key=repr))[:200], (x.name if NAMES[0] else None)]
     if isinstance(x, QPDBasis):
         return ["basis", snap_basis(x, uu)]
     if isinstance(x, PauliList):
@@ -272,6 +291,11 @@ def snap(x, uu=None):
         return _pkey(x)
     if isinstance(x, (int, str, bool, type(None), np.integer)):
         return ["v", repr(x)]
+    if type(x).__name__ == "PrimitiveResult":
+        out = []
+        for pub in x:
+            out.append([[k, list(v.array.shape), v.array.tobytes().hex()[:512], v.num_bits] for k, v in pub.data.items()])
+        return ["primitive-result", out, repr(x.metadata)[:200]]
     if hasattr(x, "quasi_dists"):
         return ["sampler-result", [sorted([int(k), _pkey(v)] for k, v in q.items()) for q in x.quasi_dists], repr(x.metadata)[:200]]
     if isinstance(x, Instruction):
@@ -336,6 +360,13 @@ def destroy(out):
                 if len(o.data):
                     del o.data[0]
                     n += 1
+            except Exception:  # noqa: BLE001
+                pass
+            try:
+                o.metadata["hacked"] = 1
+                o.global_phase = 0.5
+                o.name = "hacked"
+                n += 1
             except Exception:  # noqa: BLE001
                 pass
     for kind, o in items:
@@ -504,7 +535,7 @@ def rand_desc(rng, nq, ngates, p_pre=0.3, p_py=0.2, p_cw=0.0, barriers=True, src
 
 
 def build_circuit(d):
-    qc = QuantumCircuit(d["nq"])
+    qc = QuantumCircuit(d["nq"], d.get("nc", 0), metadata={"origin": ["c16", d["nq"]]}, global_phase=0.25)
     made = {}
     for k, o in enumerate(d["ops"]):
         g, q, p = o["g"], o["q"], o.get("p", [])
@@ -632,11 +663,12 @@ def probe_diff():
 
 def examine(inputs, call, outs_of, inplace, fresh_inputs=None):
     """Run the protocol; `call(inputs)` executes the public function; `outs_of(result)` lists the result objects."""
-    s0 = snap(inputs)
+    s0 = snap_args(inputs)
+    s0_other = snap_args(inputs[1:])
     win = walk(inputs)
     out1 = guarded(call, inputs)
-    changed = snap(inputs) != s0
-    changed_other = snap(inputs[1:]) != s0[1][1:]      # any argument besides the first (the circuit) modified
+    changed = snap_args(inputs) != s0
+    changed_other = snap_args(inputs[1:]) != s0_other      # any argument besides the first (the circuit) modified
     w1 = walk(outs_of(out1))
     io = alias_roots(win, w1)
     rec = dict(changed=changed, changed_other=changed_other, io=kind_counts(io), io_roots=io)
@@ -650,10 +682,10 @@ def examine(inputs, call, outs_of, inplace, fresh_inputs=None):
     except Exception as e:  # noqa: BLE001
         raise Crash(f"second call on the same arguments: {type(e).__name__}: {str(e)[:160]}")
     oo = alias_roots(w1, walk(outs_of(out2)))
-    s_in = snap(inputs)
+    s_in = snap_args(inputs)
     s_out1 = snap(outs_of(out1))
     n = destroy(outs_of(out2))
-    hit_in = snap(inputs) != s_in
+    hit_in = snap_args(inputs) != s_in
     hit_earlier = snap(outs_of(out1)) != s_out1
     err = None
     later = False
@@ -1058,7 +1090,14 @@ def generate(rng, tier, outdir):
             g.case("dqi", dict(circuit=cd, ids=[k for k, _ in qp], map_ids=[int(rng.integers(0, n)) for _, n in qp]), inplace=True)
 
     # ---- run the units (forked one-shot workers) and collect
-    for u, r in zip(g.units, run_units(g.units)):
+    results = run_units(g.units)
+    lost = [i for i, r in enumerate(results) if r["status"] == "lost"]
+    if lost:       # a worker died or timed out (machine under load): run those units once more, two at a time
+        again = run_units([g.units[i] for i in lost], nproc=2)
+        for i, r in zip(lost, again):
+            results[i] = r
+        w.notes.append(f"{len(lost)} unit(s) re-run after a lost worker")
+    for u, r in zip(g.units, results):
         for name, ok in r.get("contracts", []):
             w.contract(name, ok)
         if r["status"] == "refused":
@@ -1069,6 +1108,12 @@ def generate(rng, tier, outdir):
             w.notes.append(f"worker lost on {u[0]}: {r['detail']}")
             w.contract("every unit's worker returns", False)
             continue
+        # self-test of the property-level oracle: it must accept every case whose recorded observation is clean
+        # (and every case of a listed known class); run.py judges samples of ALL cases when something else breaks
+        js = r["js"]
+        if r["status"] == "ok":
+            v = judge(js)
+            w.contract("judge_accepts_clean_case", not (v.get("violates") is not False and (clean_observation(js) or js.get("known_class"))))
         w.add(r["group"], r["checker"], Raw(r["coq"]), r["js"], nontrivial=(r["nobj"] > 2))
         w.count("entry", r["name"])
         w.count("class", r["cls"])
@@ -1088,6 +1133,17 @@ def generate(rng, tier, outdir):
 # ----------------------------------------------------------------------------------------------
 # property-level oracle (independent of the Coq model)
 # ----------------------------------------------------------------------------------------------
+def clean_observation(js):
+    """the recorded observation shows no deviation from the property (what the harness itself saw)"""
+    zeros = [0] * len(KINDS)
+    if js.get("crashed"):
+        return False
+    if js.get("inplace"):
+        return (js.get("io") in ([1] + zeros[1:], zeros)) and not js.get("changed_other") and js.get("result_is_arg") is not False
+    return (not js.get("changed") and js.get("io") == zeros and js.get("oo") == zeros and not js.get("edit_hits_inputs")
+            and not js.get("edit_hits_earlier") and not js.get("later_call_changed") and not js.get("fresh_later_changed"))
+
+
 def judge(case):
     """Decides from the recorded JSON alone; never raises."""
     try:
